@@ -136,14 +136,14 @@ def dec_shell(b):
 ALPH = [0x20, 0x22, 0x5c, 0x0a, 0x0d, 0x09, 0x25, 0x5b, 0x5d, 0x27, 0x23, 0x41, 0x61, 0x30, 0x7f, 0x80, 0xff, 0x01, 0x3c, 0x26]
 
 
-def gen_unit(rng, n):
+def gen_unit(rng, n, big=False):
     cases = ["lq.all -", "lq.all 20", "lq.all 2020", "lq.all 22", "lq.all 5c", "lq.all 0a", "lq.all 0d0a", "lq.all 00", "lq.all 4100"]
     for _ in range(n):
         k = rng.random()
         if k < 0.5:
             b = bytes(rng.choice(ALPH) for _ in range(rng.choice([1, 2, 3, 4, 6, 10, 30])))
         elif k < 0.8:
-            b = bytes(rng.randrange(1, 256) for _ in range(rng.choice([1, 5, 20, 100, 600, 1100, 2100])))
+            b = bytes(rng.randrange(1, 256) for _ in range(rng.choice([1, 5, 20, 100, 600, 1100, 2100] if big else [1, 5, 20, 60, 100, 300, 1100])))
         elif k < 0.9:
             b = bytes(rng.randrange(0, 256) for _ in range(rng.choice([2, 8, 40])))       # embedded NULs
         else:
@@ -192,9 +192,9 @@ def unit_stage(res, tier):
     rng = random.Random(common.seed() * 1000003 + 3434)
     exe = impl()
     runner = coq.build_runner("pagelog")
-    n = 2500 if tier == "quick" else 120000
+    n = 2000 if tier == "quick" else 120000
     corpus = std.load_corpus(PID)
-    cases = corpus + gen_unit(rng, n)
+    cases = corpus + gen_unit(rng, n, big=(tier != "quick"))
     impl_out, model_out, dis = std.corr_stage(res, cases, exe, runner, kind_fn=lambda c, o: "unit:" + ("ok" if "qs=" in o else "x"),
                                               nontrivial_fn=lambda c, o: len(c) > 12)
     found = 0
@@ -464,7 +464,7 @@ def oracle(s, obs):
 
 def run(res, tier):
     res.rule = ("unit: C strings over an alphabet of the special bytes (space quote backslash CR LF TAB % [ ] ' # < & DEL 8-bit), random "
-                "strings up to 2100 bytes, embedded NULs, all 255 byte values; end to end: GET/extension-method requests with header "
+                "strings up to 1100 (thorough: 2100) bytes, embedded NULs, all 255 byte values; end to end: GET/extension-method requests with header "
                 "values, URL paths and Basic user names containing spaces, quotes, backslashes, brackets, percent signs, control and "
                 "8-bit bytes, logged through `logformat v " + format_text() + "`; non-trivial = the value contains at least one byte "
                 "some style must escape")
